@@ -151,6 +151,7 @@ func withEvo(ctx *Ctx, p *Prepared, err error, harness, reach string) (*Prepared
 			}
 		}
 		isEvo[j.Name] = true
+		j.First = true
 		p.Jobs = append(p.Jobs, j)
 	}
 	for k, v := range e.Targets {
